@@ -137,7 +137,13 @@ def check(case, rec):
                 fobj = getattr(ffuncs, "ffunc_" + agg)(farg, warg, case["ignore"], ra, tracing=False)
             res = cc.calculate([fobj])[0]
         else:
-            res = Q.call_agg(cc, agg, farg, warg, case["ignore"], case["rma"], N=Narg)
+            cc_N = Narg
+            w_spec = case["weights"]
+            if nd == 0 and agg == "count" and w_spec is not None and w_spec["kind"] == "array" and not w_spec["as_list"] \
+                    and via == "method" and isinstance(warg, numpy.ndarray):
+                cc_N = None  # a weight array determines the number of rows of a dimensionless index cube
+                rec.note("0-d weighted count without N")
+            res = Q.call_agg(cc, agg, farg, warg, case["ignore"], case["rma"], N=cc_N)
     gv, gm = Q.normalise(res, case["rma"], "ccube.%s" % agg)
     gv, gm = fix0d(gv, gm, exp_v)
     Q.compare("ccube.%s" % agg, gv, gm, exp_v, exp_m, tol_abs=tol)
